@@ -37,13 +37,26 @@ pub fn say(line: &str) {
     }
 }
 
-/// Documented stack effect of EXEC.CMD without the spawn and without the built-in 1 s sleep.
-pub fn exec_cmd_stub(push_state: &mut PushState, _c: &InstructionCache) {
-    if let Some(num_args) = push_state.int_stack.pop() {
-        if num_args > -1 {
-            let n = (num_args as i64 + 1) as usize;
-            let _ = push_state.name_stack.pop_vec(n);
-        }
+/// EXEC.CMD wrapper (resource envelope (d)): when the operands would reach the spawn, the
+/// harness performs the documented stack effect itself and skips the spawn and the built-in
+/// 1 s sleep - unless the command is the harmless target /bin/true, which really runs;
+/// otherwise (operands missing, negative or absurd argument count) the real instruction runs.
+pub fn exec_cmd_stub(push_state: &mut PushState, c: &InstructionCache) {
+    let reach = match push_state.int_stack.get(0) {
+        Some(n) if *n > -1 => (*n as i64 + 1) <= push_state.name_stack.size() as i64,
+        _ => false,
+    };
+    if !reach {
+        pushr::push::execution::exec_cmd(push_state, c);
+        return;
+    }
+    let n = *push_state.int_stack.get(0).unwrap() as usize;
+    let harmless = push_state.name_stack.get(n).map(|s| s == "/bin/true").unwrap_or(false);
+    if harmless {
+        pushr::push::execution::exec_cmd(push_state, c);
+    } else {
+        push_state.int_stack.pop();
+        let _ = push_state.name_stack.pop_vec(n + 1);
     }
 }
 
